@@ -34,6 +34,8 @@ def steps_of(prog):
         nw = n if d == "write" else min(prog.get("nwrite", 1), n)
         pts += [("write", k) for k in range(nw)]
         pts += [("chunk", k) for k in range(0, n - nw + 1)]
+        if nw > 0:
+            pts.append(("late_restart",))
     elif d in ("list", "gen"):
         pts += [("chunk", k) for k in range(0, n + 1)]
     if d not in ("fw", "fw-noseek"):
@@ -55,6 +57,8 @@ def output_begun_before(prog, exc):
         nw = len(chunks) if d == "write" else min(prog.get("nwrite", 1), len(chunks))
     if kind == "write":
         return exc[1] > 0
+    if kind == "late_restart":
+        return True  # at least one write() call has happened: the head is out
     if kind == "chunk":
         if nw > 0:
             return True
@@ -219,10 +223,12 @@ def judge(case, res):
         else:
             if len(resps) > 1:
                 v.append(("bytes-after-failure", f"{tag}: {len(resps)} responses on the wire"))
+            if b"ERRORPAGE" in wire:
+                v.append(("bytes-after-failure", f"{tag}: the application's error page was sent although output had begun: {wire[-60:]!r}"))
             elif resps and resps[0].status == 500 and exc[0] != "close":
                 pass
     # close() exactly once whenever the application returned its iterable
-    if rec is not None and exc[0] not in ("call", "after_start", "write") and not getattr(rec, "is_file", False):
+    if rec is not None and exc[0] not in ("call", "after_start", "write", "late_restart") and not getattr(rec, "is_file", False):
         if rec.close_calls != 1:
             v.append((f"close-count:{rec.close_calls}:{_family(cls)}", f"{tag}: iterable close() called {rec.close_calls} times"))
     return v
@@ -249,6 +255,9 @@ def base_programs(tier):
                 total = sum(map(len, chunks))
                 headers = [("X-App", "v")] + ([("Content-Length", str(total))] if cl == "exact" else [])
                 out.append(dict(status="200 OK", headers=headers, delivery=delivery, chunks=chunks))
+    # body-less statuses whose head is forced out by write(b"") (for the late start_response(exc_info) point)
+    for status in ("304 Not Modified", "204 No Content"):
+        out.append(dict(status=status, headers=[("X-App", "v")], delivery="write", chunks=[b""]))
     return out
 
 
